@@ -40,6 +40,7 @@ CFG = {
         "harness/cmd/c15 + lean driver + lib/vcheck.py transport inputs faithfully",
     ],
     "assumptions": [
+        "Similar is a function of the values of its operands: it does not modify them and its answer does not depend on their memory layout or on earlier calls (checked on every case: SPEC operand-modified / answer-depends-on-earlier-calls / answer-depends-on-operand-layout)",
         "no nil interface / nil *Bounds members (calling Similar on them panics; outside the eight types)",
         "polygon rings are closed (last vertex duplicates the first): the closing vertex is skipped by the code by design and is not compared",
         "finite coordinates and tolerance (no NaN/Inf)",
@@ -47,7 +48,12 @@ CFG = {
     "rule": "per base geometry (8 types in rotation, members in distinct 256-tol cells, vertices on a 16-tol lattice, 30% of rings axis-aligned "
             "rectangles = anchor ties, 10% near-ties): same, perturb(<tol), permute, rotate, combo, reverse line, reverse ring, displace one vertex "
             "(65/64..100 tol), insert/delete member, insert/delete vertex, change type, duplicate member (non-separated), unrelated geometry; "
-            "both argument orders of every pair; 80% dyadic tolerances 2^-10..4, 20% decimal; plus a fixed corpus of edge cases. "
+            "both argument orders of every pair; 80% dyadic tolerances 2^-30..2^30, 20% decimal; plus a fixed corpus of edge cases; "
+            "rings that visit a vertex twice (pinched / figure-eight, second visit bit-identical or within tol/4) under ALL start-vertex pairs, alone and as "
+            "holes in polygons / multi-polygons / collections; vertex and member counts 64,128,129,1024,1025,2048; deletions/insertions at the END of a list. "
+            "Every pair is evaluated by the harness under five operand layouts (plain; packed = consecutive windows of one flat buffer with spare capacity; "
+            "shared = prefix lists are re-slices of the other operand's backing array / same slice on both sides; nil for empty; in-place overwrite of an "
+            "already-compared operand), four calls per layout (AB, BA, AB, BA) with a bit-for-bit comparison of both operands after every call. "
             "distinct = distinct input line; non-trivial = every class",
     "timeout": {"quick": 600, "thorough": 3000},
 }
